@@ -580,6 +580,12 @@ class BlockUploadStream(io.RawIOBase):
                     raise SdoCommunicationError("CRC is not OK")
                 logger.info("CRC is OK")
         self.pos += len(data)
+        if self._done and self.size is not None and self.pos != self.size:
+            # The CRC does not guard the length (e.g. of zero bytes)
+            self._error = True
+            self.sdo_client.abort(0x06070010)
+            raise SdoCommunicationError(
+                f"Received {self.pos} bytes instead of the {self.size} announced")
         return data
 
     def _retransmit(self):
